@@ -719,7 +719,7 @@ def report(ctx, ev, proof_ok, proof, lines):
 
 
 def run(ctx):
-    proof_ok, proof = common.proof_status_all(ctx, "C06", ["C06_compose"])
+    proof_ok, proof = common.proof_status_all(ctx, "C06", ["C06_compose", "links"])
     harness = common.build_harness("global")
     driver = common.build_driver("global")
     lines, ncorpus, coinc = gen_cases(ctx, harness)
